@@ -1059,7 +1059,8 @@ func (s *Server) cmdFGET(msg *Message) (resp.Value, error) {
 	if len(args) < 4 {
 		return retrerr(errInvalidNumberOfArguments)
 	}
-	key, id, field := args[1], args[2], args[3]
+	// field names are stored without the white space around them
+	key, id, field := args[1], args[2], strings.TrimSpace(args[3])
 
 	// >> Operation
 
@@ -1303,7 +1304,8 @@ func (s *Server) cmdFEXISTS(msg *Message) (resp.Value, error) {
 	if len(args) != 4 {
 		return retrerr(errInvalidNumberOfArguments)
 	}
-	key, id, field := args[1], args[2], args[3]
+	// field names are stored without the white space around them
+	key, id, field := args[1], args[2], strings.TrimSpace(args[3])
 
 	// >> Operation
 
